@@ -36,6 +36,8 @@ type SpecExpr struct {
 type LoopSpec struct {
 	Invariants []Clause
 	Decreases  *Clause
+	IterGhosts []GhostDecl // ghost variables (re)initialised at the start of every iteration
+	IterEnsures []Clause   // checked at the end of every iteration (back edge)
 }
 
 type Hook struct {
@@ -320,7 +322,7 @@ func splitArgs(s string) []string {
 	return out
 }
 
-var reLoop = regexp.MustCompile(`^loop\s+(\d+)\s*:\s*(invariant|decreases)\s+(.*)$`)
+var reLoop = regexp.MustCompile(`^loop\s+(\d+)\s*:\s*(invariant|decreases|iteration ghost|iteration ensures)\s+(.*)$`)
 var reAtCall = regexp.MustCompile(`^at\s+(call\s+)?(\S+?)\s*:\s*(after\s+)?(assert|assume|ghost|allocbound)\s+(.*)$`)
 var reGhost = regexp.MustCompile(`^ghost\s+(\w+)\s*:=\s*(.*)$`)
 var reSpecFn = regexp.MustCompile(`^spec\s+func\s+(\w+)\s*\(([^)]*)\)\s*(\w+)\s*(=\s*(.*))?$`)
@@ -507,14 +509,28 @@ func (db *SpecDB) loadText(data, path, pkgPath string, extern bool) error {
 					ls = &LoopSpec{}
 					cur.Loops[n] = ls
 				}
-				cl, err := mk(m[3], ln)
+				body := m[3]
+				gname := ""
+				if m[2] == "iteration ghost" {
+					parts := strings.SplitN(body, ":=", 2)
+					if len(parts) != 2 {
+						return fmt.Errorf("%s:%d: bad iteration ghost: %s", path, ln, line)
+					}
+					gname, body = strings.TrimSpace(parts[0]), parts[1]
+				}
+				cl, err := mk(body, ln)
 				if err != nil {
 					return err
 				}
-				if m[2] == "invariant" {
+				switch m[2] {
+				case "invariant":
 					ls.Invariants = append(ls.Invariants, cl)
-				} else {
+				case "decreases":
 					ls.Decreases = &cl
+				case "iteration ghost":
+					ls.IterGhosts = append(ls.IterGhosts, GhostDecl{Name: gname, Init: cl})
+				case "iteration ensures":
+					ls.IterEnsures = append(ls.IterEnsures, cl)
 				}
 			case "at":
 				m := reAtCall.FindStringSubmatch(line)
@@ -1249,6 +1265,22 @@ func (env *SpecEnv) evalCall(x *ast.CallExpr) Val {
 			specFail("suffix() needs two slices")
 		}
 		return boolVal(And(Eq(a.L[0], b.L[0]), Eq(a.L[1], Add(b.L[1], k)), Eq(a.L[2], Sub(b.L[2], k))))
+	case "elemOrZero":
+		// elemOrZero(s, i): s[i] if 0 <= i < len(s), else the zero value of the element type
+		sv, iv := arg(0), arg(1).term()
+		sl, ok := sv.T.Underlying().(*types.Slice)
+		if !ok {
+			specFail("elemOrZero needs a slice")
+		}
+		pp := &PtrInfo{Kind: pkElem, Root: sl.Elem(), Ref: sv.L[0], Idx: Add(sv.L[1], iv)}
+		ev := env.cur().loadQuiet(pp, env)
+		z := zeroVal(sl.Elem())
+		in := And(Le(I(0), iv), Lt(iv, sv.L[2]))
+		out := Val{T: sl.Elem(), L: make([]Term, len(ev.L))}
+		for i := range ev.L {
+			out.L[i] = Ite(in, ev.L[i], z.L[i])
+		}
+		return out
 	case "typetag":
 		return intVal(arg(0).L[0])
 	case "as":
